@@ -323,6 +323,11 @@ fn gauss_diag_case(c: &J) -> Result<usize, String> {
         let dump = verif::diag_dump(&mut math, &diag);
         let now = scales_of(&dump);
         never_degenerate(&now, "gauss_diag")?;
+        // the log-determinant is the sum of the logarithms of the inverse scales
+        let want_logdet: f64 = now.inv_stds.iter().map(|x| x.ln()).sum();
+        if !close(now.logdet, want_logdet, 1e-12) && (now.logdet - want_logdet).abs() > 1e-9 {
+            return Err(format!("gauss_diag: log-determinant {} is not the sum of the logarithms of the inverse scales {want_logdet} {c}", now.logdet));
+        }
         if !grad_based {
             // the draw-only rule estimates the sample variance, which is not the target's: only non-degeneracy is demanded
             checks += d;
